@@ -474,6 +474,50 @@ def main(repo, out, work):
     if not re.search(r"switch \(reader_\.ReadChar\(\) - '0'\)", rb):
         raise TranslateError('ReadBounds no longer switches on ReadChar() - \'0\'')
 
+    # column sizes: writer ColSizeWriter::Write, reader ReadColumnSizes<CUMULATIVE>
+    cw = src_function(hh, r'void Write\(int s\)\s*\{', 'ColSizeWriter::Write')
+    cwf = re.sub(r'\s+', ' ', re.sub(r'//[^\n]*', '', cw))
+    mcw = re.search(r'switch\(kind_\) \{(.*?)default:', cwf)
+    if not mcw:
+        raise TranslateError('ColSizeWriter::Write: switch(kind_) not found')
+    colcases = []
+    for mm in re.finditer(r'case (\d+): (.*?) break;', mcw.group(1)):
+        body = mm.group(2).strip()
+        m3 = re.match(r'^(sum_ \+= s; )?nlw_\.apr\(nlw_\.nm, "((?:[^"\\]|\\.)*)", (sum_|s)\);$', body)
+        if not m3:
+            raise TranslateError('ColSizeWriter::Write case %s has an unexpected body: %s' % (mm.group(1), body))
+        if fmt_items(c_unescape(m3.group(2))) != '[.dInt, .nl]':
+            raise TranslateError('ColSizeWriter::Write case %s prints with format %s' % (mm.group(1), m3.group(2)))
+        colcases.append((int(mm.group(1)), m3.group(1) is not None, m3.group(3) == 'sum_'))
+    if not colcases or ' case ' in re.sub(r'case \d+: .*? break;', '', mcw.group(1)):
+        raise TranslateError('ColSizeWriter::Write: cases not understood')
+    wcs = src_function(hpp, r'void NLWriter2<Params>::WriteColumnSizes\(\)\s*\{', 'WriteColumnSizes')
+    if len(re.findall(r'Hdr\(\)\.num_vars \+ Hdr\(\)\.num_rand_vars - 1\)', wcs)) < 2 or \
+            not re.search(r'case 1:.*?ColSizeWriter csw\(\*this, 1\);.*?case 2:.*?ColSizeWriter csw\(\*this, 2\);', wcs, re.S):
+        raise TranslateError('WriteColumnSizes: count expression or writer kinds changed')
+    rc_ = src_function(rd, r'void NLReader<Reader, Handler>::ReadColumnSizes\(\)\s*\{', 'NLReader::ReadColumnSizes')
+    rcf = re.sub(r'\s+', ' ', re.sub(r'//[^\n]*', '', rc_))
+    mrc = re.search(r'int num_sizes = header_\.num_vars - 1; if \(reader_\.ReadUInt\(\) != num_sizes\) reader_\.ReportError\("expected \{\}", num_sizes\); '
+                    r'reader_\.ReadTillEndOfLine\(\); typename Handler::ColumnSizeHandler size_handler = handler_\.OnColumnSizes\(\); int prev_size = 0; '
+                    r'for \(int i = 0; i < num_sizes; \+\+i\) \{ int size = reader_\.ReadUInt\(\); if \(CUMULATIVE\) \{ (.*?) \} '
+                    r'size_handler\.Add\(size\); reader_\.ReadTillEndOfLine\(\); \} \}$', rcf)
+    if not mrc:
+        raise TranslateError('ReadColumnSizes: the frame around the CUMULATIVE block changed shape')
+    cstmts = []
+    rest = mrc.group(1).strip()
+    var = {'size': '.size', 'prev_size': '.prev'}
+    while rest:
+        m4 = re.match(r'^if \((\w+) < (\w+)\) reader_\.ReportError\("invalid column offset"\);\s*', rest)
+        m5 = re.match(r'^(\w+) (-=|\+=|=) (\w+);\s*', rest)
+        if m4 and m4.group(1) in var and m4.group(2) in var:
+            cstmts.append('.errIfLt %s %s' % (var[m4.group(1)], var[m4.group(2)]))
+            rest = rest[m4.end():]
+        elif m5 and m5.group(1) in var and m5.group(3) in var:
+            cstmts.append('%s %s %s' % ({'-=': '.sub', '+=': '.add', '=': '.set'}[m5.group(2)], var[m5.group(1)], var[m5.group(3)]))
+            rest = rest[m5.end():]
+        else:
+            raise TranslateError('ReadColumnSizes: statement not understood: %s' % rest[:60])
+
     L = ['import MpVerif.C03.GenIR',
          '/-! GENERATED by translators/gen_writer_c03.py from nl-writer2/include/mp/nl-writer2.hpp, nl-writer2.h,',
          '    nl-writer2/src/nl-writer2.cc, nl-header.h and include/mp/nl-reader.h of the ampl/mp working tree (clang-14 AST for',
@@ -507,6 +551,11 @@ def main(repo, out, work):
           'def readBounds : List (String × String × String) := [\n  %s]' % ',\n  '.join('(%s, %s, %s)' % tuple(lean_str(x) for x in c) for c in cases),
           '/-- the same as an executable table: entry d = what `case d` of the switch on `ReadChar() - \'0\'` does -/',
           'def readBoundsTable : List BndCase := [%s]' % ', '.join(bnd_case(c) for c in cases),
+          '',
+          '/-- ColSizeWriter::Write: the cases of switch(kind_) -/',
+          'def colWriteCases : List ColWriteCase := [%s]' % ', '.join('⟨%d, %s, %s⟩' % (k, str(a).lower(), str(b).lower()) for k, a, b in colcases),
+          '/-- ReadColumnSizes: the statements of the `if (CUMULATIVE)` block, between `size = ReadUInt()` and `Add(size)` -/',
+          'def colCumStmts : List CStmt := [%s]' % ', '.join(cstmts),
           '', 'end MpVerif.Gen.C03Writer', '']
     text = '\n'.join(L)
     if not (os.path.exists(out) and open(out).read() == text):
